@@ -423,6 +423,7 @@ func (concWorld) Exec(prop string, t *Trace) *Result {
 	res.Probes["switches"] = co.Switches
 	res.Probes["switch_into_task_mid_call"] = co.Overlaps
 	res.Probes["overlap_on_same_shared_object"] = co.SameObj
+	res.Probes["yields_by_goroutines_the_library_started"] = simrt.Foreign
 	if co.Diverged {
 		res.Probes["replay_schedule_exhausted"]++
 	}
